@@ -392,7 +392,8 @@ class C01(MotionMonitor):
                (1.5, "exact-border", {}), (1.5, "arcs-under-g91", mk(rel=True, arcs=True, arcs_rel=True)),
                (1.5, "g90-influences-extruder", mk(rel=True, arcs=True, at=True, g90e=True)),
                (1, "g90-influences-extruder-inch", mk(rel=True, inch=True, g90e=True, p_inside=0.5)),
-               (1, "firmware-unmatched", mk(fw=True, fw_stray=True, p_inside=0.5))]
+               (1, "firmware-unmatched", mk(fw=True, fw_stray=True, p_inside=0.5)),
+               (1, "arcs-under-g91-inch", mk(rel=True, inch=True, arcs=True, arcs_rel=True, p_arc=0.1, start_rel=0.5))]
 
     def settings_for(self, rnd, feats):
         s = MotionMonitor.settings_for(self, rnd, feats)
@@ -611,7 +612,10 @@ class C14(MotionMonitor):
     classes = [(3, "default-table", mk(at=True, rel=True, arcs=True)), (2, "inch", mk(at=True, inch=True, rel=True)),
                (2, "firmware", mk(at=True, fw=True)), (1, "addregion", mk(at=True, addregion=True)),
                (1.5, "arcs-under-g91", mk(at=True, rel=True, arcs=True, arcs_rel=True)),
-               (1, "spelled", mk(at=True, rel=True, arcs=True, spell=True))]
+               (1, "spelled", mk(at=True, rel=True, arcs=True, spell=True)),
+               (1, "retract-with-move-or-hop", mk(at=True, retmove=True, p_retmove=0.1, p_inside=0.5, p_at=0.12)),
+               (1, "g90-influences-extruder", mk(at=True, rel=True, g90e=True, p_inside=0.5, p_at=0.1)),
+               (0.7, "arcs-under-g91-inch", mk(at=True, rel=True, inch=True, arcs=True, arcs_rel=True, p_arc=0.1))]
 
     exhaustive_what = ("every event sequence over {retract, recover, print inside/outside, travel inside/outside, disable @-command, "
                        "enable @-command} with matched cycles up to length 4 (quick) / 6 (thorough), E-only and firmware retraction")
@@ -630,6 +634,7 @@ class C14(MotionMonitor):
             return self.gen_plugin_table_case(rnd)
         name, feats = self.pick_class(rnd)
         settings = self.settings_for(rnd, feats)
+        settings["g90e"] = bool(feats.get("g90e"))
         table, params = at_table(rnd)
         settings["at"] = table
         if params:
@@ -730,7 +735,10 @@ class C14(MotionMonitor):
             # obligations as leaving a region", which includes the extruder coordinate and an owed recovery (C04/C05 oracles;
             # all programs here have matched retract cycles and absolute extrusion)
             v += oracle_c01(tr, stats)
-            v += oracle_c04(tr, stats)
+            if case.get("cls") == "retract-with-move-or-hop":
+                return v          # C04's and C05's quantifiers are E-only or firmware cycles: retract-on-move is outside them
+            if not (case.get("settings") or {}).get("g90e"):
+                v += oracle_c04(tr, stats)       # (C04's quantifier: absolute extrusion)
             v += oracle_c05(tr, stats, bool(case.get("fw")))
         return v
 
